@@ -28,6 +28,7 @@ import PGProofs.Glue
 import PGProofs.Bridge
 import PGProofs.BridgeTwoLocus
 import PGProofs.RewardsThm
+import PGProofs.EndToEnd2
 
 set_option linter.all false
 set_option pp.fieldNotation.generalized false
@@ -83,6 +84,12 @@ theorem exit_vector : ∀ (n : ℕ) (s : State), (∀ l < State.nLoci s, 1 ≤ S
 /-- two-locus generator of the code on non-absorbing states -/
 theorem two_locus_generator : ∀ {D : ℕ} (ts : Fin D → ℚ) (mig : Fin D → Fin D → ℚ) (r : ℚ) (c : Fin D × LCls → ℕ), ¬Absorbing2 c → ∀ (g : State → ℚ), genOf (transit Model.kingman (mkEpoch ts mig r) (enc2 c)) g (enc2 c) = QCs (argRate r ts mig) argRes (fun c' ↦ g (enc2 c')) c := @PG.genOf_transit_two_locus
 
+/-- CAPSTONE (cdf route): cdf on ANY list of non-negative times (unsorted, repeated) returns entrywise the cdf of the labelled process; a negative time raises (cdf_call_error_iff) -/
+theorem end_to_end_cdf : ∀ {D : ℕ} {K : Type} [inst : Field K] [inst_1 : LinearOrder K] [inst_2 : IsStrictOrderedRing K] {m : Model} {cinit : Fin D → ℕ} {ts : ℕ → Fin D → ℚ} {mig : ℕ → Fin D → Fin D → ℚ} {r : ℕ → ℚ} {fuel : ℕ → ℕ} {G : ℕ → Graph}, (∀ (e : ℕ), bfs (transit m (mkEpoch (ts e) (mig e) (r e))) (encLC cinit) (fuel e) = some (G e)) → ∀ (L : ExpLaw K) (n : ℕ) (c0 : Fin D → ℕ) (x0 : Assembly.LabS encLC (G 0).visited (∑ d, cinit d)), cntF (Assembly.LabP.val x0) = c0 → ∀ (eps : List EpochT) (times : List ℚ), (∀ t ∈ times, 0 ≤ t) → EndToEnd.cdfCallK L G n c0 eps times = Except.ok (List.map (EndToEnd.labCdf L m ts mig G cinit n x0 eps) times) := @PG.EndToEnd.cdf_call_eq_labelled
+
+/-- with the epochs produced by the demography model -/
+theorem end_to_end_cdf_demography : ∀ {K : Type} [inst : Field K] [inst_1 : LinearOrder K] [inst_2 : IsStrictOrderedRing K] (I : Config.Input) (o : DemoOpts) (count : ℕ) {m : Model} (tsOf : ℚ → ℚ) {cinit : Fin (List.length (Config.axis I)) → ℕ} {r : ℕ → ℚ} {fuel : ℕ → ℕ} {G : ℕ → Graph}, (∀ (e : ℕ), bfs (transit m (mkEpoch (EndToEnd.demoTs tsOf I (EndToEnd.demoEpochs o I count) (List.length (Config.axis I)) e) (EndToEnd.demoMig I (EndToEnd.demoEpochs o I count) (List.length (Config.axis I)) e) (r e))) (encLC cinit) (fuel e) = some (G e)) → ∀ (L : ExpLaw K) (n : ℕ) (c0 : Fin (List.length (Config.axis I)) → ℕ) (x0 : Assembly.LabS encLC (G 0).visited (∑ d, cinit d)), cntF (Assembly.LabP.val x0) = c0 → ∀ (times : List ℚ), (∀ t ∈ times, 0 ≤ t) → EndToEnd.cdfCallK L G n c0 (List.map Epoch.toT (EndToEnd.demoEpochs o I count)) times = Except.ok (List.map (EndToEnd.labCdf L m (EndToEnd.demoTs tsOf I (EndToEnd.demoEpochs o I count) (List.length (Config.axis I))) (EndToEnd.demoMig I (EndToEnd.demoEpochs o I count) (List.length (Config.axis I))) G cinit n x0 (List.map Epoch.toT (EndToEnd.demoEpochs o I count))) times) := @PG.EndToEnd.cdf_with_demography
+
 end PG.C03
 
 #print axioms PG.C03.cdf_zero
@@ -101,3 +108,5 @@ end PG.C03
 #print axioms PG.C03.quantile_spec
 #print axioms PG.C03.exit_vector
 #print axioms PG.C03.two_locus_generator
+#print axioms PG.C03.end_to_end_cdf
+#print axioms PG.C03.end_to_end_cdf_demography
